@@ -51,6 +51,10 @@ def handle_instances(tier, prop):
                 for mode in ("arbitrary", "exact"):
                     out.append(dict(id="handle-E%d-d%s-t%s-%s" % (E, "".join("m0p"[x + 1] for x in d), "".join("T" if x else "n" for x in tm), mode),
                                     kind="handle", E=E, dirs=list(d), terms=list(tm), mode=mode, budget=b))
+    # one event whose function is QUADRATIC along the trajectory (two true roots anywhere): soundness near either root
+    if prop == "C07":
+        for d in ((0,) if quick else (0, 1, -1)):
+            out.append(dict(id="handle-quad-d%s" % "m0p"[d + 1], kind="handle", E=1, dirs=[d], terms=[False], mode="arbitrary", quad=True, budget=b))
     return out
 
 
@@ -132,11 +136,21 @@ def handle_scenario(c, inst, props):
         alphas.append(al)
         roots_true.append(r)
 
-        def mk(al, r):
+        r2 = None
+        if inst.get("quad"):
+            r2 = c.real("s%d" % i)
+            c.assume(absval(c, r2) <= 512)
+            c.assume(absval(c, r - r2) >= 1.0 / 64)
+
+        def mk(al, r, r2=r2):
             def ev(t, y, **kw):
+                if r2 is not None:
+                    return al * (y[0] - r) * (y[0] - r2)
                 return al * (y[0] - r)
             return ev
         e = mk(al, r)
+        second_roots = locals().get("second_roots", [])
+        second_roots.append(r2)
         e.is_terminal = inst["terms"][i]
         e.direction = inst["dirs"][i]
         evs.append(e)
@@ -176,10 +190,25 @@ def handle_scenario(c, inst, props):
         c.check("c07.A.returned_events_had_success", all(stub_log["succ"][i] for i in active))
         c.check("c07.A.returned_roots_are_finder_roots_in_bracket",
                 c.all([c.all([c.eq(roots[j], stub_log["roots"][i]), c.le(0, (roots[j] - t_prev) * (t_next - roots[j]), 64)]) for j, i in enumerate(active)]))
-        c.check("c07.A.returned_root_within_sqrt_eps_of_true_root", c.all([c.le(absval(c, roots[j] - roots_true[i]), tol, 1) for j, i in enumerate(active)]))
+        def near_some_root(j, i):
+            cands = [c.le(absval(c, roots[j] - roots_true[i]), tol, 1)]
+            if inst.get("quad") and second_roots[i] is not None:
+                cands.append(c.le(absval(c, roots[j] - second_roots[i]), tol, 1))
+            return c.any(cands)
+        c.check("c07.A.returned_root_within_sqrt_eps_of_true_root", c.all([near_some_root(j, i) for j, i in enumerate(active)]))
         okd = []
         for j, i in enumerate(active):
             d = inst["dirs"][i]
+            if inst.get("quad"):
+                # slope of g along the trajectory at the nearer root: alpha*(r - s) at r, alpha*(s - r) at s
+                r_, s_ = roots_true[i], second_roots[i]
+                at_r = c.le(absval(c, roots[j] - r_), tol, 1)
+                slope = alphas[i] * (r_ - s_)
+                if d > 0:
+                    okd.append(c.any([c.all([at_r, c.lt(0, slope * w)]), c.all([~at_r if c.symbolic else (not at_r), c.lt(slope * w, 0)])]))
+                elif d < 0:
+                    okd.append(c.any([c.all([at_r, c.lt(slope * w, 0)]), c.all([~at_r if c.symbolic else (not at_r), c.lt(0, slope * w)])]))
+                continue
             if d > 0:
                 okd.append(c.lt(0, alphas[i] * w))
             elif d < 0:
